@@ -44,9 +44,10 @@ Theorem passes_share_the_walk : forall fuel j pos id endt t fs bad,
 Proof. exact (fun fuel j pos id endt t fs bad => conj (revoke_is_walk fuel j pos id endt t) (replay_is_walk fuel j pos id endt t fs bad)). Qed.
 Print Assumptions passes_share_the_walk.
 
-(* Termination is NOT a theorem of the pinned code: on a log in which every
-   block is a descriptor of the expected sequence the scan pass never stops
-   (no amount of fuel suffices).  Replayed on e2fsck by the C06 check. *)
+(* Termination is NOT a theorem of the loop as modelled (the code as pinned): on a log in which every
+   block is a descriptor of the expected sequence the scan pass never stops (no amount of fuel
+   suffices).  Replayed on e2fsck by the C06 check, where it was a hang; the repaired code leaves the
+   loop after j_total_len rounds, which is the point where this model runs out of fuel. *)
 Theorem recover_terminates_refuted : forall fuel pos, scan fuel cyclic_log pos 5 false 0 None = SFuel.
 Proof. exact scan_unbounded. Qed.
 Print Assumptions recover_terminates_refuted.
